@@ -5,5 +5,7 @@ No == [k |-> "note", id |-> 0]
 Iv(i) == [k |-> "inv", id |-> i]
 \* colliding ids across callers (1 vs 1), different ids at the same position (1 vs 2), notes and invalid members
 B3 == [h1 |-> <<Ca(1)>>, h2 |-> <<Ca(1), No, Ca(2)>>, h3 |-> <<Ca(2), Iv(3), Ca(1)>>]
+\* bodies without any call: notifications and statically invalid members in every mixture (status 204 vs 200)
+B4 == [h1 |-> <<No, Iv(1)>>, h2 |-> <<Iv(2)>>, h3 |-> <<No>>, h4 |-> <<Iv(0), No, Iv(3)>>, h5 |-> <<No, No, Ca(1)>>]
 B2 == [h1 |-> <<Ca(1), Ca(2)>>, h2 |-> <<Ca(2), Ca(1)>>]
 ================================================================================
